@@ -20,6 +20,15 @@ from vlib import env  # noqa: E402
 env.bootstrap()
 
 
+class RejectedError(Exception):
+    """A service exception with two mandatory constructor arguments (botocore ClientError style): it can be pickled, but the
+    receiving process cannot rebuild it from its args."""
+
+    def __init__(self, code, reason):
+        super(RejectedError, self).__init__('rejected %s: %s' % (code, reason))
+        self.code, self.reason = code, reason
+
+
 def proc_state(pid):
     try:
         with open('/proc/%d/stat' % pid) as f:
@@ -82,6 +91,9 @@ def main():
                     time.sleep(3600)
                 if b == 'late':
                     time.sleep(timeout + 0.35)
+                if b == 'unpicklable_answer':
+                    # the replayed operation ends with an exception the consumer process cannot unpickle: the worker is healthy and stays alive
+                    raise RejectedError(409, 'duplicate')
                 if b == 'spawn_child':
                     # replayed code that hands work to a helper process of its own
                     import multiprocessing
